@@ -93,6 +93,50 @@ def quotedLoop : Nat → Str → Str → Option Str
 /-- `quoted_string(w, txt)` on an empty sink -/
 def quotedStringRs (txt : Str) : Option Str := quotedLoop (txt.length + 1) [] txt
 
+/-! ### the same loop on UTF-8 bytes
+
+`quoted_string` receives `lexical_form().as_bytes()`: it scans and cuts *bytes*.  `utf8` is Lean's own
+encoder (`String.utf8EncodeChar`, the one `String.toUTF8` is specified by); the table entries
+`b'..'` are bytes.  `SophiaProofs.C03.quoted_bytes_eq` proves that the byte loop applied to the
+encoding of a text yields the encoding of `quotedString` of the text — cutting at a byte never
+splits a multi-byte sequence and never mistakes a continuation byte for a cut byte. -/
+
+abbrev Bytes := List UInt8
+
+def utf8 (s : Str) : Bytes := s.flatMap String.utf8EncodeChar
+
+/-- the byte a table entry `b'x'` denotes -/
+def byteOf (c : Char) : UInt8 := UInt8.ofNat c.toNat
+
+def cutBytes : Bytes := Gen.ntCutChars.map byteOf
+
+def armBytes : List (UInt8 × Bytes) := Gen.ntEscapeArms.map (fun a => (byteOf a.1, a.2.map byteOf))
+
+/-- `chr <= b'\\' && (chr == b'\n' || …)` on a byte -/
+def isCutB (b : UInt8) : Bool := decide (b.toNat ≤ Gen.ntCutBound) && cutBytes.contains b
+
+def escArmB (b : UInt8) : Option Bytes := armBytes.lookup b
+
+/-- `quotedLoop` with `txt: &[u8]` -/
+def quotedLoopB : Nat → Bytes → Bytes → Option Bytes
+  | 0, _, _ => none
+  | fuel + 1, w, txt =>
+    let pre := txt.takeWhile (fun c => !isCutB c)
+    let rest := txt.dropWhile (fun c => !isCutB c)
+    let w1 := w ++ pre
+    let w2? : Option Bytes :=
+      match rest with
+      | [] => some w1
+      | cutchar :: _ => (escArmB cutchar).map (fun e => w1 ++ e)
+    match w2? with
+    | none => none
+    | some w2 =>
+      if rest.length ≤ 1 then some w2
+      else quotedLoopB fuel w2 (rest.drop 1)
+
+/-- `quoted_string(w, txt)` on the bytes of a text, empty sink -/
+def quotedBytesRs (txt : Bytes) : Option Bytes := quotedLoopB (txt.length + 1) [] txt
+
 /-- `write_term` -/
 def writeTerm : Term → Str
   | .iri s => '<' :: s ++ ['>']
